@@ -19,7 +19,7 @@ from typing import Any, Callable, Optional
 
 from construct.core import (
     Array, Byte, Bytes, Check, Computed, ConstructError, Enum, Int16ul,
-    PaddedString, RangeError, Struct, evaluate,
+    PaddedString, RangeError, SizeofError, Struct, evaluate,
 )
 from construct.lib.containers import Container
 
@@ -52,9 +52,17 @@ class OrigSafeListConstruct(Array):
             predicate = lambda obj: True
         for i in range(count):
             context._index = i
+            entry_address = stream.tell()
             try:
                 entry = self.subcon._parsereport(stream, context, path)  # type: ignore
             except (UnicodeDecodeError, ConstructError, KeyError, IndexError) as e:
+                # as in the tree after the alignment fix: a failed element still occupies its slot
+                try:
+                    entry_size = self.subcon._sizeof(context, path)  # type: ignore
+                except SizeofError:
+                    entry_size = 0
+                if entry_size > 0:
+                    stream.seek(entry_address + entry_size, SEEK_SET)
                 continue
             if predicate(obj):
                 obj[i] = (entry)
